@@ -1650,7 +1650,7 @@ CONTROLS = [
      "            while not is_close_to_zero(deficit) and deficit < 0.0:\n",
      "            while is_close_to_zero(deficit) or not deficit < 0.0:\n", "C02.BOOK"),
     ("group inclusion bound aggregated as widest member times count", MOD,
-     "    power_inclusion_upper_bound = sum(\n        bounds.inclusion_upper for bounds in battery_metrics\n    )\n",
+     "    power_inclusion_upper_bound = math.fsum(\n        bounds.inclusion_upper for bounds in battery_metrics\n    )\n",
      "    power_inclusion_upper_bound = max(\n        bounds.inclusion_upper for bounds in battery_metrics\n"
      "    ) * len(battery_metrics)\n", "C02.GRP"),
     ("group exclusion bound aggregated as a plain sum", MOD,
